@@ -1,8 +1,8 @@
 (* DerivedP.v — C01: the operators defined by rewriting (Mux, abs, constant shifts, in-range array indexing,
    indexing/slicing) denote the documented integer / bit-sequence results. *)
 From Coq Require Import ZArith List Bool Lia ZifyBool.
-From V.Model Require Import Bits Shape Ast Denote PyRTL PyEval Derived.
-From V.Proofs Require Import BitsP ShapeP ExprP.
+From V.Model Require Import Bits Shape Ast Denote PyRTL PyEval Stmt Derived.
+From V.Proofs Require Import BitsP ShapeP ExprP StmtP.
 Import ListNotations.
 Open Scope Z_scope.
 
@@ -217,4 +217,76 @@ Proof.
   rewrite (array_cases_spec en elems (width (shape_of index)) Hwn 0 (denote en index)) by lia.
   replace ((0 <=? denote en index) && (denote en index <? 0 + Z.of_nat (length elems))) with true by lia.
   rewrite Z.sub_0_r. reflexivity.
+Qed.
+
+(* ---------- rotations ---------- *)
+Lemma testbit_bits_at d off w i : 0 <= off -> 0 <= w -> 0 <= i ->
+  Z.testbit (bits_at d off w) i = (i <? w) && Z.testbit d (i + off).
+Proof.
+  intros Ho Hw Hi. unfold bits_at. rewrite Z.testbit_mod_pow2 by auto.
+  destruct (i <? w); simpl; auto. apply testbit_div_pow2; auto.
+Qed.
+
+Lemma rot_cat_bits en e k i : wf_expr e = true -> env_ok en e -> 0 <= k <= ewidth e -> 0 <= i < ewidth e ->
+  Z.testbit (denote en (ECat [ESlice e k (ewidth e); ESlice e 0 k])) i =
+  Z.testbit (denote en e) (if i <? ewidth e - k then i + k else i + k - ewidth e).
+Proof.
+  intros Hwf Henv Hk Hi. set (len := ewidth e) in *.
+  cbn [denote map]. unfold ewidth at 1 2. cbn [shape_of width].
+  assert (Hnn : 0 <= cat_of [(bits_at (denote en e) 0 (k - 0), k - 0)]).
+  { apply cat_of_nonneg. repeat constructor; simpl; lia. }
+  rewrite testbit_cat_of by (auto; lia).
+  destruct (i <? len - k) eqn:E.
+  - rewrite testbit_bits_at by lia. rewrite E. reflexivity.
+  - rewrite testbit_cat_of by (simpl; lia). replace (i - (len - k) <? k - 0) with true by lia.
+    rewrite testbit_bits_at by lia. replace (i - (len - k) <? k - 0) with true by lia. simpl. f_equal. lia.
+Qed.
+
+(* e.rotate_left(n): bit i of the result is bit (i - n) mod len of e's bit pattern; any integer amount *)
+Theorem mk_rotate_left_spec en e n i : wf_expr e = true -> env_ok en e -> 0 <= i < ewidth e ->
+  wf_expr (mk_rotate_left e n) = true /\
+  Z.testbit (denote en (mk_rotate_left e n)) i = Z.testbit (denote en e) ((i - n) mod ewidth e).
+Proof.
+  intros Hwf Henv Hi. unfold mk_rotate_left. set (len := ewidth e) in *.
+  replace (len =? 0) with false by lia. set (a := n mod len).
+  pose proof (Z.mod_pos_bound n len ltac:(lia)) as Ha. fold a in Ha.
+  set (k := norm_index len (- a)).
+  assert (Hk : 0 <= k <= len /\ k = (- n) mod len).
+  { unfold k, norm_index. destruct (- a <? 0) eqn:E.
+    - split; [lia|]. replace (Z.max 0 (- a + len)) with (len - a) by lia.
+      unfold a. apply (Z.mod_unique_pos _ _ (- (n / len) - 1)); [lia|].
+      pose proof (Z.div_mod n len ltac:(lia)). lia.
+    - assert (a = 0) by lia. split; [lia|]. replace (Z.min len (- a)) with 0 by lia.
+      symmetry. apply Z.mod_opp_l_z; [lia|]. unfold a in *; lia. }
+  destruct Hk as [Hkr Hkeq]. split.
+  - simpl. rewrite Hwf. fold len. simpl. replace (0 <=? k) with true by lia.
+    replace (k <=? len) with true by lia. replace (len <=? len) with true by lia.
+    replace (0 <=? 0) with true by lia. reflexivity.
+  - change (Z.testbit (denote en (ECat [ESlice e k (ewidth e); ESlice e 0 k])) i = Z.testbit (denote en e) ((i - n) mod len)).
+    rewrite (rot_cat_bits en e k i Hwf Henv) by (fold len; lia). fold len. f_equal.
+    replace ((i - n) mod len) with ((i + k) mod len).
+    + destruct (i <? len - k) eqn:E.
+      * symmetry; apply Z.mod_small; lia.
+      * apply (Z.mod_unique_pos _ _ 1); lia.
+    + rewrite Hkeq. rewrite Z.add_mod_idemp_r by lia. f_equal; lia.
+Qed.
+
+Theorem mk_rotate_right_spec en e n i : wf_expr e = true -> env_ok en e -> 0 <= i < ewidth e ->
+  wf_expr (mk_rotate_right e n) = true /\
+  Z.testbit (denote en (mk_rotate_right e n)) i = Z.testbit (denote en e) ((i + n) mod ewidth e).
+Proof.
+  intros Hwf Henv Hi. unfold mk_rotate_right. set (len := ewidth e) in *.
+  replace (len =? 0) with false by lia. set (a := n mod len).
+  pose proof (Z.mod_pos_bound n len ltac:(lia)) as Ha. fold a in Ha.
+  assert (norm_index len a = a) as -> by (unfold norm_index; replace (a <? 0) with false by lia; lia).
+  split.
+  - simpl. rewrite Hwf. fold len. simpl. replace (0 <=? a) with true by lia.
+    replace (a <=? len) with true by lia. replace (len <=? len) with true by lia.
+    replace (0 <=? 0) with true by lia. reflexivity.
+  - change (Z.testbit (denote en (ECat [ESlice e a (ewidth e); ESlice e 0 a])) i = Z.testbit (denote en e) ((i + n) mod len)).
+    rewrite (rot_cat_bits en e a i Hwf Henv) by (fold len; lia). fold len. f_equal.
+    replace ((i + n) mod len) with ((i + a) mod len) by (unfold a; rewrite Z.add_mod_idemp_r by lia; reflexivity).
+    destruct (i <? len - a) eqn:E.
+    + symmetry; apply Z.mod_small; lia.
+    + apply (Z.mod_unique_pos _ _ 1); lia.
 Qed.
